@@ -149,7 +149,8 @@ func atomOnDeriv(atom string, d []string) int {
 			}
 		}
 		return 0
-	case atom == "anyTerminal":
+	case atom == "anyTerminal", strings.HasPrefix(atom, "scan:") && strings.Contains(atom, "antlr.Terminal"):
+		// a scan of the children for terminal nodes: holds on a derivation that has a terminal
 		for _, s := range d {
 			if !strings.HasPrefix(s, "R:") {
 				return 1
@@ -515,6 +516,14 @@ func (vm *VisitorModel) childTextCaptures(fd *ast.FuncDecl, hi *handlerInfo) {
 								reads = true
 							}
 						}
+						// the child is handed to a helper that reads its text
+						if fn := calleeOf(info, call); fn != nil && fn.Pkg() == vm.pkg.Types && implicit != nil {
+							for i, a := range call.Args {
+								if id, ok := ast.Unparen(a).(*ast.Ident); ok && info.Uses[id] == implicit && vm.paramTextRead(fn, i) {
+									reads = true
+								}
+							}
+						}
 					}
 					return true
 				})
@@ -526,6 +535,40 @@ func (vm *VisitorModel) childTextCaptures(fd *ast.FuncDecl, hi *handlerInfo) {
 		}
 		return true
 	})
+}
+
+// paramTextRead: the function calls GetText() on its idx-th parameter.
+func (vm *VisitorModel) paramTextRead(fn *types.Func, idx int) bool {
+	info := vm.pkg.TypesInfo
+	fd := vm.decls[fn]
+	if fd == nil || fd.Body == nil || fd.Type.Params == nil {
+		return false
+	}
+	var param types.Object
+	n := 0
+	for _, p := range fd.Type.Params.List {
+		for _, nm := range p.Names {
+			if n == idx {
+				param = info.Defs[nm]
+			}
+			n++
+		}
+	}
+	if param == nil {
+		return false
+	}
+	reads := false
+	ast.Inspect(fd.Body, func(m ast.Node) bool {
+		if call, ok := m.(*ast.CallExpr); ok {
+			if sel, ok := call.Fun.(*ast.SelectorExpr); ok && sel.Sel.Name == "GetText" {
+				if id, ok := sel.X.(*ast.Ident); ok && info.Uses[id] == param {
+					reads = true
+				}
+			}
+		}
+		return !reads
+	})
+	return reads
 }
 
 // isRuleCtxType: pointer to a parser rule context, or an interface satisfied by them (TokenProvider, antlr.ParserRuleContext).
@@ -823,6 +866,10 @@ func (w *hwalk) inline(call *ast.CallExpr, fn *types.Func, fd *ast.FuncDecl, g *
 		}
 	}
 	sub.stmts(fd.Body.List, g)
+	if len(sub.ctxObjs) > 0 {
+		// a helper that is handed the rule context may read the text of child rules for the handler
+		w.vm.childTextCaptures(fd, w.hi)
+	}
 }
 
 func (vm *VisitorModel) touchesStack(fn *types.Func, depth int, seen map[*types.Func]bool) bool {
@@ -1014,6 +1061,9 @@ func (w *hwalk) cond(e ast.Expr) *bexpr {
 		}
 	case *ast.CallExpr:
 		fn := calleeOf(info, x)
+		if a := w.scanAtom(x); a != "" {
+			return bAtom(a)
+		}
 		if fn != nil && fn.Pkg() == w.vm.pkg.Types && fn.Name() == "HasTokens" && len(x.Args) >= 2 && w.isCtxExpr(x.Args[0]) {
 			var out *bexpr = bTrue
 			for _, a := range x.Args[1:] {
